@@ -38,6 +38,7 @@ def run(tier):
         IC.verify_integrate(src, reg, PID + "/after-a-failure", callbacks=1, status0=ExcVal("FailedIntegration", tag="earlier-failure"), drop_status_post=True)
         for implicit, adaptive in ((False, True), (True, False), (False, False)):
             R.under_contract(intcall.check_rk_call_faults(reg, src, PID, implicit, adaptive))
+            R.under_contract(intcall.check_rk_call_unbounded(reg, src, PID, implicit, adaptive, faulting=True))      # ... from any retry: loop cut by an invariant
         # reset() after a failure -- from any failed state, in particular one in which the fault hit the very first step (no step
         # recorded, status = the failure object, dt already clamped, evaluations counted): the pristine system again (C13's obligations)
         from . import C13
